@@ -75,6 +75,10 @@ def get_convergence_format(epsilon: float, max_decimals: int = 10) -> str:
     if max_decimals <= 0:
         raise ValueError("max_decimals must be positive")
 
+    if np.isinf(epsilon):
+        # e.g. gamma == 0, where the threshold epsilon * (1 - gamma) / gamma is infinite
+        return ".0f"
+
     # Get number of decimal places needed to show changes above epsilon
     # Add 1 to ensure we can see changes until below epsilon
     decimal_places = -int(np.floor(np.log10(epsilon))) + 1
